@@ -126,6 +126,7 @@ more('testequation0d', dict(lambdas=np.array([-3.0, -0.1]), u0=2.5), dict(lambda
 more('test_equation_IMEX', dict(lambdas_implicit=np.array([-4.0]), lambdas_explicit=np.array([1.5]), u0=0.5))
 more('GenericNDimFinDiff', dict(nvars=15, coeff=0.7, derivative=2, freq=2, order=4, bc='dirichlet-zero'), dict(nvars=(8, 8), coeff=-0.3, derivative=1, freq=(2, 2), stencil_type='center', order=2, bc='periodic'), dict(nvars=15, coeff=1.0, derivative=2, freq=1, bc='neumann-zero'))
 more('nonlinear_ODE_1', dict(u0=0.3, newton_tol=1e-12))
+more('DiscontinuousTestODE', dict(newton_tol=1e-11, _attrs=dict(t_switch=1.3)))  # an event time located by the switch estimator while the state is still far below the threshold
 more('ProtheroRobinson', dict(epsilon=1.0, nonLinear=True), dict(epsilon=1e-5, nonLinear=False))
 more('ProtheroRobinsonAutonomous', dict(epsilon=1.0, nonLinear=True))
 more('polynomial_testequation', dict(degree=6, seed=11), dict(degree=1, seed=3))
@@ -260,8 +261,12 @@ def run_class(case, r):
     cls = load(name)
     tag = f'{name}[{vi}]'
     r.key = f'class/{name}/{vi}'
+    attrs = kw.pop('_attrs', {})  # attributes other shipped components set on a live problem (e.g. the switch estimator's t_switch)
     P = cls(**kw)
     twin = cls(**kw)
+    for obj in (P, twin):
+        for an, av in attrs.items():
+            setattr(obj, an, av)
     t0 = sp.get('t0', 0.0)
     tmax = sp.get('tmax', 0.5)
     nstates = case['nstates']
@@ -309,6 +314,8 @@ def run_class(case, r):
     worst = 0.0
     for i in range(nstates):
         t = t0 + (float(rng.uniform(0, tmax)) if tmax > 0 else 0.0)
+        if 't_switch' in attrs and i % 3 != 2:
+            t = [attrs['t_switch'], float(np.nextafter(attrs['t_switch'], -np.inf))][i % 3]  # exactly at / one ulp before the event time
         try:
             u = admissible_state(P, sp, rng, t)
         except NotImplementedError:
@@ -412,7 +419,7 @@ def run_class(case, r):
             e0 = float(np.max(np.abs(ua - want)))
             r.check(e0 <= 1e-12 * (1 + float(np.max(np.abs(want)))), 'closed-form-solution-matches-initial-condition', f'{tag}: u_exact(0) = {ua} but the configured initial value is {kw["u0"]}',
                     mech='nonlinear_ODE_1:u0-parameter-ignored-by-closed-form-solution' if name == 'nonlinear_ODE_1' else None)
-    if not sp.get('spectral') and not sp.get('no_exact') and np.asarray(P.u_exact(t0)).size <= 8 and tmax > 0:
+    if not sp.get('spectral') and not sp.get('no_exact') and not attrs and np.asarray(P.u_exact(t0)).size <= 8 and tmax > 0:
         ts = t0 + float(rng.uniform(0.1, 0.9)) * tmax
         try:
             h = 1e-3 * max(tmax, 1e-3)
@@ -433,6 +440,38 @@ def run_class(case, r):
                 r.count('derivative_unresolved')
         except NotImplementedError:
             r.count('u_exact_only_at_t0')
+    # ---------------- the result of a solve depends on its arguments only, not on what the object solved before
+    # (factorisation / operator caches keyed too coarsely): used object vs brand-new object, factors that nearly coincide
+    if name not in ('buck_converter',):
+        meths = ['solve_system'] if not sp.get('multi') else ['solve_system_1', 'solve_system_2']
+        t = t0
+        u = admissible_state(P, sp, rng, t)
+        rhs = P.dtype_u(u)
+        base = float(rng.choice([1e-6, 9.6e-6, 1e-3, 0.1, 1.0]))
+        pairs = [(base, base * (1 + 4e-2)), (base, base + 4e-7), (0.1, 0.1 + 3e-7)]
+        for fa, fb in pairs[: 2 if case['nstates'] < 6 else 3]:
+            if fa in sp.get('skip_factors', ()) or fb in sp.get('skip_factors', ()):
+                continue
+            for meth in meths:
+                try:
+                    getattr(P, meth)(rhs, fa, u, t)
+                    used = getattr(P, meth)(rhs, fb, u, t)
+                    fresh_obj = cls(**kw)
+                    for an, av in attrs.items():
+                        setattr(fresh_obj, an, av)
+                    fresh = getattr(fresh_obj, meth)(rhs, fb, u, t)
+                except Exception:  # noqa
+                    r.count('history_solve_raised')
+                    continue
+                a_, b_ = np.asarray(used), np.asarray(fresh)
+                if not (np.all(np.isfinite(a_)) and np.all(np.isfinite(b_))):
+                    r.count('history_solve_not_finite')
+                    continue
+                e = float(np.max(np.abs(a_ - b_))) if a_.size else 0.0
+                sc = max(1.0, float(np.max(np.abs(b_)))) if b_.size else 1.0
+                htol = 1e-9 if (kw.get('solver_type') in ('CG', 'GMRES') or name in ('boussinesq_2d_imex',)) else 1e-11
+                r.check(e <= htol * sc, 'solve-independent-of-object-history', f'{tag}: {meth}(factor={fb!r}) on an object that has just solved with factor {fa!r} differs from the same call on a new object by {e:.3e} (scale {sc:.2e})')
+                r.count('history_pairs')
     r.nontrivial = judged > 0 or bool(sp.get('spectral'))
     r.count('solves_judged', judged)
     r.observe('class', name)
